@@ -223,11 +223,18 @@ pub fn run(c: &Ctx) {
     if closed {
         c.set_exhaustive(true);
     }
-    c.set_rule("(a) reachability exploration, to the FIXPOINT over the namespace {/a,/b,/a/b} and breadth-first up to a state cap over {/a,/b}x{a,b} (file data \"\" or \"1\", links to every namespace path, the root and a missing path, cwd any directory): breadth-first from the fresh instance, every (state, op) edge for ~250 ops (creators, writers, removers, set_cwd, copy/move_p/symlink over all ordered pairs, all queries; absolute and cwd-relative spellings) executed on a Memfs re-created by replaying the state's BFS path and on the reference model, successors inside the namespace expanded until no new state appears (thorough) or the state cap (quick; evidence says whether the fixpoint was reached). (c) history sweep: EVERY sequence of 3 calls (thorough: also a seeded 1/16 of the sequences of 4) over a 67-form alphabet (create/write/remove/remove_all/set_cwd on 4 paths, copy/move_p/symlink on all ordered pairs, cwd-relative forms, an untouched write handle, an append) after each of 3 seed prefixes, each history run from a fresh instance against the model - the reachability exploration re-creates a state by its shortest path and cannot see what one particular history left in hidden bookkeeping. (b) model-based histories: proptest-generated sequences of calls (every trait method incl. builders and handles) whose path selectors are resolved against the current reference-model state (existing dir/file/link, missing child, missing parent, below a file, root/cwd; 8 spellings: absolute, cwd-relative, './', doubled separators, 'x/../' detours, trailing '/.'), executed in lock step on Memfs and on a reference tree filesystem written from the trait docs; after every step the result (value or error kind) must be admitted by the model and the dump-derived tree (names, kinds, bytes, link targets, modes, owners, cwd) must equal the model's; failed single-target calls must leave the raw dump unchanged. Non-trivial = history with >=1 successful mutator and >=1 failing call, or a two-path op (copy/move/symlink); distinct by concrete op list.");
+    c.set_rule("(a) reachability exploration, to the FIXPOINT over the namespace {/a,/b,/a/b} and breadth-first up to a state cap over {/a,/b}x{a,b} (file data \"\" or \"1\", links to every namespace path, the root and a missing path, cwd any directory): breadth-first from the fresh instance, every (state, op) edge for ~250 ops (creators, writers, removers, set_cwd, copy/move_p/symlink over all ordered pairs, all queries; absolute and cwd-relative spellings) executed on a Memfs re-created by replaying the state's BFS path and on the reference model, successors inside the namespace expanded until no new state appears (thorough) or the state cap (quick; evidence says whether the fixpoint was reached). (c) history sweep (run with HOME unset - plain paths need no home directory): EVERY sequence of 3 calls (thorough: also a seeded 1/16 of the sequences of 4) over a 67-form alphabet (create/write/remove/remove_all/set_cwd on 4 paths, copy/move_p/symlink on all ordered pairs, cwd-relative forms, an untouched write handle, an append) after each of 3 seed prefixes, each history run from a fresh instance against the model - the reachability exploration re-creates a state by its shortest path and cannot see what one particular history left in hidden bookkeeping. (b) model-based histories: proptest-generated sequences of calls (every trait method incl. builders and handles) whose path selectors are resolved against the current reference-model state (existing dir/file/link, missing child, missing parent, below a file, root/cwd; 8 spellings: absolute, cwd-relative, './', doubled separators, 'x/../' detours, trailing '/.'), executed in lock step on Memfs and on a reference tree filesystem written from the trait docs; after every step the result (value or error kind) must be admitted by the model and the dump-derived tree (names, kinds, bytes, link targets, modes, owners, cwd) must equal the model's; failed single-target calls must leave the raw dump unchanged. Non-trivial = history with >=1 successful mutator and >=1 failing call, or a two-path op (copy/move/symlink); distinct by concrete op list.");
     c.assume("reference model rules: DESIGN.md appendix A; arguments traversing a link as an intermediate component are excluded by construction (counted)");
     c.assume("Memfs::verif_dump (hook H2) is a faithful copy of the internal indexes");
     // (c) every short history (not state): what a call leaves in hidden bookkeeping for the next one
+    // (this phase runs with HOME removed from the process environment: none of its paths mentions the home
+    // directory, so none of its calls may need it; nothing else runs in this process meanwhile)
+    let home = std::env::var_os("HOME");
+    std::env::remove_var("HOME");
     crate::hsweep::history_sweep(c, 3, 103, 1, "model", |ops| run_ops(ops, &OPTS));
+    if let Some(h) = home {
+        std::env::set_var("HOME", h);
+    }
     if c.tier == Tier::Thorough {
         crate::hsweep::history_sweep(c, 4, 104, 16, "model", |ops| run_ops(ops, &OPTS));
     }
